@@ -405,6 +405,14 @@ _ADDED5 = {
 }
 for _k, _v in _ADDED5.items():
     CLAIMS[_k]["text"] = CLAIMS[_k]["text"] + _v
+_ADDED6 = {
+    "C03": " A class of the package used as `with K(..):` is read as the try / finally it abbreviates (fields from __init__, __enter__ before, __exit__ after the "
+           "block, setattr with a decided name as a store) when its __exit__ does the same whether or not the block raised; stores such a manager makes to the duration "
+           "getter must be followed by cache_clear of every memoised start time (H3[invalidate ..]).",
+    "C07": " A1 also reads the closed form of the index lookup (position in the listing / count of earlier acquisitions on the qubit / default iff not listed).",
+}
+for _k, _v in _ADDED6.items():
+    CLAIMS[_k]["text"] = CLAIMS[_k]["text"] + _v
 _PY = (" Every check also runs six lints for slips of the Python data model (qcolint/pylints.py; rules <id>.PY1..PY6) over the files the property's anchors name: "
        "late-binding closures that escape their loop, one-shot iterators consumed twice, containers stored and then changed in place, replicated / default mutables, and truth "
        "tests of Optional[T] values whose T has falsy members, and float-typed values stored into integer arrays. Each reports only the shape in which the slip is certain; "
